@@ -273,7 +273,7 @@ def check_trace(ctx, pool, path, tag, every_prefix, coq_cuts):
 def run(ctx):
     coq.check_property_file(ctx)
     ctx.rule = (
-        "traces written by create_main_run_output from real chains: small (3 mutations, 2 samples, grid 11, 2 chains), example-sized (mixing_small.tsv, 3 chains, grid 101; "
+        "traces written by create_main_run_output from real chains: small (3 mutations, 2 samples, grid 11, 2 chains), small pre-clustered (4 mutations in 3 clusters, 2 samples, PyClone-VI style cluster file), example-sized (mixing_small.tsv, 3 chains, grid 101; "
         "thorough adds a clustered 2-chain trace); every byte prefix of the small file (thorough: of all files; quick: 16-byte stride + last 64 + header for the larger) through "
         "write_map_results / write_consensus_results / write_topology_report; zlib on every such body prefix; pickle.loads on payload prefixes; the Coq stack machine on the real "
         "opcode stream at seeded cut positions; non-trivial = every prefix; distinct = (trace, prefix length)"
@@ -286,6 +286,14 @@ def run(ctx):
         ("small", make_trace(os.path.join(d, "small.pkl.gz"), small_in, 2, ctx.seed, 6, 11, "binomial"), True, 150),
         ("example", make_trace(os.path.join(d, "example.pkl.gz"), example, 3, ctx.seed + 1, 4, 101, "beta-binomial"), not ctx.quick, 60),
     ]
+    # a small pre-clustered trace in both tiers: with a cluster file the writer also stores the cluster table, which the readers
+    # use for the results table - a cut anywhere in it must not be read as an unclustered (or otherwise different) trace
+    from .. import tables as _tables
+
+    small4_in = runs.write_input(os.path.join(d, "small4.tsv"), runs.make_rows(ctx.rng, 4, 2, depth=(10, 30)))
+    small_cl = os.path.join(d, "small4_clusters.tsv")
+    _tables.write_clusters(small_cl, {"m0": 0, "m1": 0, "m2": 1, "m3": 2}, per_sample=["S0", "S1"])
+    traces.append(("smallclu", make_trace(os.path.join(d, "small_clustered.pkl.gz"), small4_in, 2, ctx.seed + 3, 5, 11, "binomial", cluster_file=small_cl), True, 60))
     if not ctx.quick:
         traces.append(("clustered", make_trace(os.path.join(d, "clustered.pkl.gz"), example, 2, ctx.seed + 2, 4, 101, "beta-binomial", cluster_file=clusters, proposal="fully-adapted"), True, 60))
     ctx.exhaustive = True
